@@ -28,9 +28,23 @@ def run(ctx):
     # ------------------------------------------------------------------ R1
     add = mod.func('InteractionMatrix.add')
     stores = []
+    # a row taken into a local first: `row = d.setdefault(k, {})` / `row = d[k]`
+    row_alias = {}
+    for node in walk_no_nested(add):
+        if isinstance(node, ast.Assign) and len(node.targets) == 1 and isinstance(node.targets[0], ast.Name):
+            v = node.value
+            if isinstance(v, ast.Call) and last_attr(v) == 'setdefault' and len(v.args) == 2 \
+                    and isinstance(v.args[1], ast.Dict) and not v.args[1].keys:
+                row_alias[node.targets[0].id] = (dotted(v.func.value), norm(v.args[0]))
+            elif isinstance(v, ast.Subscript) and dotted(v.value):
+                row_alias[node.targets[0].id] = (dotted(v.value), norm(v.slice))
     for node in walk_no_nested(add):
         if isinstance(node, ast.Assign) and isinstance(node.targets[0], ast.Subscript):
             name, idx = _subscript_store_chain(node.targets[0])
+            if name in row_alias and sum(1 for s_ in walk_no_nested(add) if isinstance(s_, ast.Assign)
+                                         and any(isinstance(t_, ast.Name) and t_.id == name
+                                                 for t_ in s_.targets)) == 1:
+                name, idx = row_alias[name][0], [row_alias[name][1]] + idx
             if name == 'self.dictionary' and len(idx) == 2:
                 stores.append((node, idx, norm(node.value)))
     mirrored = False
